@@ -1,8 +1,430 @@
+/-
+Driver mode c06 (DESIGN.md section 6, C06). Per history (one CASE):
+ * tie: after every API call the router's scene (ShapeRef::polygon(), active flag,
+   JunctionRef::position(), connector end vertices) must equal the scene of
+   Model.ActionQueue exactly                                              → DIVERGE otherwise
+ * after every processing point at which the model queue is empty:
+   (a) displayRoute() and route() of every connector valid for the MODEL's scene (Check.RouteRect,
+       shapes shrunk by 1e-6)                                              → SPECFAIL invalid-route
+   (b) cost(route()) equals cost(route() of the fresh router) to 1e-6     → SPECFAIL stale-route / fresh-worse
+   (c) a processTransaction() with nothing queued leaves displayRoute()/route() bit-identical
+                                                                           → SPECFAIL noop-changed
+   (d) staleness audit of dumped visibility / invisibility edges           → DIVERGE stale-graph
+-/
 import Driver.Proto
+import AdaptaVerif.Model.ActionQueue
+import AdaptaVerif.Check.RouteRect
 namespace Driver.C06
+open Driver AdaptaVerif.Num AdaptaVerif.Model.ActionQueue
+open AdaptaVerif.Check.RouteRect (P Rect segHitsOpenRect routeValidRect)
 
-def run (_args : List String) : IO UInt32 := do
-  IO.eprintln "driver mode c06: not implemented yet"
-  return 2
+abbrev Pts := Array Pt
+
+def toP (p : Pt) : P := ⟨p.x, p.y⟩
+
+/-- `n x1 y1 … xn yn` starting at token `i` -/
+def parsePts (l : Array String) (i : Nat) : Option Pts := do
+  let n := nat! (l[i]?.getD "0")
+  let mut out : Pts := #[]
+  for j in [0:n] do
+    let x ← num? (l[i + 1 + 2 * j]?.getD "")
+    let y ← num? (l[i + 2 + 2 * j]?.getD "")
+    out := out.push ⟨x, y⟩
+  return out
+
+def parsePt (l : Array String) (i : Nat) : Option Pt := do
+  let x ← num? (l[i]?.getD "")
+  let y ← num? (l[i + 1]?.getD "")
+  return ⟨x, y⟩
+
+def parseOp (l : Array String) : Option Op := do
+  let name := l[0]?.getD ""
+  let id := nat! (l[1]?.getD "0")
+  match name with
+  | "addShape" => let p ← parsePts l 2; return .addObst false id p.toList
+  | "addJunction" => let p ← parsePt l 2; return .addObst true id [p]
+  | "moveShapeAbs" => let p ← parsePts l 3; return .moveAbs false id p.toList (l[2]?.getD "0" == "1")
+  | "moveJunctionAbs" => let p ← parsePt l 2; return .moveAbs true id [p] false
+  | "moveShapeRel" => let p ← parsePt l 2; return .moveRel false id p.x p.y
+  | "moveJunctionRel" => let p ← parsePt l 2; return .moveRel true id p.x p.y
+  | "deleteShape" => return .delete false id
+  | "deleteJunction" => return .delete true id
+  | "newConn" => return .newConn id
+  | "setEndpoint" =>
+    let p ← parsePt l 3
+    let w := l[2]?.getD ""
+    if w == "1" then return .setEndpoint id .src p
+    else if w == "2" then return .setEndpoint id .tar p
+    else none
+  | "setTransactionUse" => return .setTransactionUse (l[1]?.getD "0" == "1")
+  | "processTransaction" => return .processTransaction
+  | _ => none
+
+def opName : Op → String
+  | .addObst j .. => if j then "addJunction" else "addShape"
+  | .moveAbs j .. => if j then "moveJunctionAbs" else "moveShapeAbs"
+  | .moveRel j .. => if j then "moveJunctionRel" else "moveShapeRel"
+  | .delete j .. => if j then "deleteJunction" else "deleteShape"
+  | .newConn .. => "newConn"
+  | .setEndpoint .. => "setEndpoint"
+  | .setTransactionUse .. => "setTransactionUse"
+  | .processTransaction => "processTransaction"
+
+/-- which de-duplication branch of the model an op takes (coverage statistics) -/
+def branchOf (st : State) : Op → String
+  | .moveAbs _ id _ _ | .moveRel _ id _ _ =>
+    if hasAct st.queue .add id then "move.fold-into-add"
+    else if hasAct st.queue .move id then "move.overwrite-queued"
+    else "move.push"
+  | .delete _ id => if hasAct st.queue .move id then "delete.erases-queued-move" else "delete.push"
+  | .setEndpoint c e _ =>
+    match findAct st.queue .connChange c with
+    | some a => if a.conns.any (·.1 == e) then "endpoint.overwrite-same-end" else "endpoint.append-other-end"
+    | none => "endpoint.push"
+  | .processTransaction => if st.queue.isEmpty then "txn.empty" else "txn.flush"
+  | _ => "other"
+
+def insertSorted {α} (key : α → Nat) (a : α) : List α → List α
+  | [] => [a]
+  | b :: l => if key a ≤ key b then a :: b :: l else b :: insertSorted key a l
+
+def sortBy {α} (key : α → Nat) (l : List α) : List α := l.foldr (insertSorted key) []
+
+def rectOfPoly (g : Poly) : Option Rect :=
+  match g with
+  | [] => none
+  | p :: rest =>
+    let x0 := rest.foldl (fun m q => if q.x < m then q.x else m) p.x
+    let x1 := rest.foldl (fun m q => if q.x > m then q.x else m) p.x
+    let y0 := rest.foldl (fun m q => if q.y < m then q.y else m) p.y
+    let y1 := rest.foldl (fun m q => if q.y > m then q.y else m) p.y
+    some ⟨x0, y0, x1, y1⟩
+
+def tol : Rat := 1 / 1000000
+
+/-- junction obstacle box: `JunctionRef::makeRectangle`, nudgeDist = min(1, idealNudgingDistance = 4) -/
+def junctionBox (g : Poly) : Option Rect :=
+  match g with
+  | [p] => some ⟨p.x - 1, p.y - 1, p.x + 1, p.y + 1⟩
+  | _ => none
+
+def shapeRects (sc : Scene) : List Rect :=
+  sc.obsts.filterMap fun o => if o.isJ || !o.active then none else (rectOfPoly o.geom).map (·.shrink tol)
+
+def junctionRects (sc : Scene) : List (Nat × Rect) :=
+  sc.obsts.filterMap fun o => if o.isJ && o.active then (junctionBox o.geom).map (fun r => (o.id, r.shrink tol)) else none
+
+/-! ### exact cost arithmetic -/
+
+def scaleS : Nat := 1000000000
+
+/-- certified enclosure `lo ≤ sqrt x ≤ hi` (hi − lo = 1e-9); the candidate from `Nat.sqrt` is
+    CHECKED (`lo² ≤ x ≤ hi²`), so nothing about `Nat.sqrt` is trusted -/
+def sqrtEncl (x : Rat) : Option (Rat × Rat) :=
+  if x < 0 then none else
+  let n : Nat := ((x * (scaleS * scaleS : Nat)).floor).toNat
+  let r := Nat.sqrt n
+  let lo : Rat := (r : Rat) / (scaleS : Rat)
+  let hi : Rat := ((r + 1 : Nat) : Rat) / (scaleS : Rat)
+  if lo * lo ≤ x && x ≤ hi * hi then some (lo, hi) else none
+
+def cross (a b c : Pt) : Rat := (b.x - a.x) * (c.y - b.y) - (b.y - a.y) * (c.x - b.x)
+def dot (a b c : Pt) : Rat := (b.x - a.x) * (c.x - b.x) + (b.y - a.y) * (c.y - b.y)
+
+/-- number of `segmentPenalty` units of a path (makepath.cpp `cost`): 1 per non-collinear bend,
+    2 for doubling back -/
+def bendUnits (r : Pts) : Nat := Id.run do
+  let mut n := 0
+  for i in [2:r.size] do
+    let a := r[i - 2]!; let b := r[i - 1]!; let c := r[i]!
+    if a == b || b == c then continue
+    if cross a b c != 0 then n := n + 1
+    else if dot a b c < 0 then n := n + 2
+  return n
+
+def absR (x : Rat) : Rat := if x < 0 then -x else x
+
+/-- cost enclosure (lo, hi): Euclidean (polyline) or Manhattan (orthogonal) length + penalty·bends -/
+def costEncl (orth : Bool) (pen : Rat) (r : Pts) : Option (Rat × Rat) := Id.run do
+  let mut lo : Rat := 0
+  let mut hi : Rat := 0
+  for i in [1:r.size] do
+    let a := r[i - 1]!; let b := r[i]!
+    if orth then
+      let d := absR (b.x - a.x) + absR (b.y - a.y)
+      lo := lo + d; hi := hi + d
+    else
+      match sqrtEncl ((b.x - a.x) * (b.x - a.x) + (b.y - a.y) * (b.y - a.y)) with
+      | some (l, h) => lo := lo + l; hi := hi + h
+      | none => return none
+  let p := pen * (bendUnits r : Nat)
+  return some (lo + p, hi + p)
+
+def showR (x : Rat) : String :=
+  let m := (x * 1000).floor
+  s!"{m / 1000}.{(m % 1000).toNat / 100}{((m % 1000).toNat / 10) % 10}{(m % 1000).toNat % 10}"
+
+def showPts (r : Pts) : String :=
+  " ".intercalate (r.toList.map fun p => s!"({showR p.x},{showR p.y})")
+
+/-! ### per-case state machine -/
+
+structure Edge where
+  o1 : Nat
+  vn1 : Nat
+  c1 : Bool
+  p1 : Pt
+  o2 : Nat
+  vn2 : Nat
+  c2 : Bool
+  p2 : Pt
+  blocker : Int := 0
+
+def parseEdge (l : Array String) (withBlocker : Bool) : Option Edge := do
+  let p1 ← parsePt l 3
+  let p2 ← parsePt l 8
+  return { o1 := nat! (l[0]?.getD "0"), vn1 := nat! (l[1]?.getD "0"), c1 := l[2]?.getD "0" == "1", p1 := p1,
+           o2 := nat! (l[5]?.getD "0"), vn2 := nat! (l[6]?.getD "0"), c2 := l[7]?.getD "0" == "1", p2 := p2,
+           blocker := if withBlocker then int! (l[10]?.getD "0") else 0 }
+
+structure Txn where
+  rt : List (Nat × Pts) := []
+  rr : List (Nat × Pts) := []
+  fr : List (Nat × Pts) := []
+  fd : List (Nat × Pts) := []
+  fresh : Bool := false
+  ve : Array Edge := #[]
+  ie : Array Edge := #[]
+  dumped : Bool := false
+
+structure St where
+  model : State := init
+  orth : Bool := false
+  pen : Rat := 0
+  obsO : List Obst := []
+  obsC : List Conn := []
+  txn : Txn := {}
+  inTxn : Bool := false
+  last : List (Nat × Pts × Pts) := []      -- conn ↦ (displayRoute, route) at the previous processing point
+  noopExpected : Bool := false
+  lastOp : String := ""
+  stats : List (String × Nat) := []
+  checkedTxns : Nat := 0
+  bentRoutes : Nat := 0
+  rerouted : Nat := 0
+  fail : Option Verdict := none
+
+def St.bump (s : St) (k : String) (n : Nat := 1) : St := { s with stats := bumpStats s.stats k n }
+
+def St.setFail (s : St) (v : Verdict) : St :=
+  match s.fail, v with
+  | none, _ => { s with fail := some v }
+  | some (.diverge _), .specfail _ => { s with fail := some v }     -- a property failure outranks a broken tie
+  | _, _ => s
+
+def lookup {β} (l : List (Nat × β)) (k : Nat) : Option β := (l.find? (·.1 == k)).map (·.2)
+
+/-- vertex of a dumped edge must belong to a live object of the model scene, at its current position -/
+def vertexOk (sc : Scene) (orth : Bool) (o vn : Nat) (isConn : Bool) (p : Pt) : Bool :=
+  if orth then true else
+  if isConn then
+    match findConn sc o with
+    | some c => if vn == 1 then c.src == some p else if vn == 2 then c.dst == some p else true
+    | none =>
+      match findObst sc o with            -- connection-pin vertex of a junction (its centre)
+      | some ob => ob.active && ob.isJ && ob.geom == [p]
+      | none => false
+  else
+    match findObst sc o with
+    | some ob =>
+      ob.active &&
+        (if ob.isJ then
+          match ob.geom with
+          | [c] => (p.x == c.x + 1 || p.x == c.x - 1) && (p.y == c.y + 1 || p.y == c.y - 1)
+          | _ => false
+         else ob.geom[vn]? == some p)
+    | none => false
+
+/-- classification of an invalid route (fingerprint for findings): does some offending leg run
+    exactly through two corners of the shape it crosses (the diagonal, or along collinear corners)? -/
+def invalidKind (sc : Scene) (r : Pts) : String := Id.run do
+  for i in [1:r.size] do
+    let a := r[i - 1]!; let b := r[i]!
+    for o in sc.obsts do
+      if o.isJ || !o.active then continue
+      match rectOfPoly o.geom with
+      | none => continue
+      | some rc =>
+        if segHitsOpenRect (rc.shrink tol) (toP a) (toP b) then
+          let corners : List Pt := [⟨rc.x0, rc.y0⟩, ⟨rc.x1, rc.y0⟩, ⟨rc.x1, rc.y1⟩, ⟨rc.x0, rc.y1⟩]
+          let on := corners.filter fun c => cross a b c == 0 && dot a c b ≥ 0
+          if on.length ≥ 2 then return s!"through-two-corners shape={o.id}"
+          else return s!"through-interior shape={o.id}"
+  return "endpoints"
+
+def checkTxn (s : St) : St := Id.run do
+  let t := s.txn
+  let mut s := { s with txn := {}, inTxn := false }
+  if !s.model.queue.isEmpty then
+    -- the router is in the middle of a transaction (move folded into a queued Add while transactions
+    -- are off): the property promises nothing about routes here
+    return s.bump "txn.skipped-queue-nonempty"
+  let sc := s.model.scene
+  let rects := shapeRects sc
+  s := { s with checkedTxns := s.checkedTxns + 1 }
+  s := s.bump "txn.checked"
+  -- (a) validity
+  for (kind, routes) in [("displayRoute", t.rt), ("route", t.rr)] do
+    for (cid, r) in routes do
+      match findConn sc cid with
+      | some { src := some a, dst := some b, .. } =>
+        s := s.bump "routes.validated"
+        if !routeValidRect rects (toP a) (toP b) (r.toList.map toP) then
+          s := s.setFail (.specfail s!"invalid-route {invalidKind sc r} {kind} conn={cid} txn-after-op={s.lastOp}: {showPts r} not a valid route from ({showR a.x},{showR a.y}) to ({showR b.x},{showR b.y}) for the model scene")
+      | _ => s := s.setFail (.diverge s!"route printed for connector {cid} whose ends are not both set in the model")
+  -- (c) no-op transaction
+  if s.noopExpected then
+    s := s.bump "noop-txn.checked"
+    for (cid, r) in t.rt do
+      match lookup s.last cid with
+      | some (d0, r0) =>
+        if d0 != r || some r0 != lookup t.rr cid then
+          s := s.setFail (.specfail s!"noop-changed conn={cid}: a processTransaction() with an empty queue changed the route")
+      | none => pure ()
+  -- (b) cost against the fresh router
+  if t.fresh then
+    for (cid, r) in t.rr do
+      match lookup t.fr cid with
+      | none => s := s.setFail (.diverge s!"no fresh route for connector {cid}")
+      | some f =>
+        s := s.bump "cost.compared"
+        if r.size ≥ 3 then s := { s with bentRoutes := s.bentRoutes + 1 }
+        let changed := match lookup s.last cid with
+          | some (_, r0) => r0 != r
+          | none => true
+        if changed && (lookup s.last cid).isSome then s := { s with rerouted := s.rerouted + 1 }
+        match costEncl s.orth s.pen r, costEncl s.orth s.pen f with
+        | some (il, ih), some (fl, fh) =>
+          if il > fh + tol then
+            -- is the fresh route better only through fewer bends (its pure length is not shorter)?
+            let penOnly := match costEncl s.orth 0 r, costEncl s.orth 0 f with
+              | some (ll, _), some (_, fh') => s.pen > 0 && ll ≤ fh' + tol
+              | _, _ => false
+            let kind := if changed then "rerouted-worse" else if penOnly then "not-rerouted-fewer-bends-only" else "not-rerouted"
+            s := s.setFail (.specfail s!"stale-route {kind} conn={cid} after-op={s.lastOp} incremental-cost={showR il} fresh-cost={showR fh} incremental: {showPts r} fresh: {showPts f}")
+          else if fl > ih + tol then
+            s := s.setFail (.specfail s!"fresh-worse conn={cid} after-op={s.lastOp} incremental-cost={showR ih} fresh-cost={showR fl} incremental: {showPts r} fresh: {showPts f}")
+          else if r == f then s := s.bump "cost.same-route" else s := s.bump "cost.equal-cost-different-route"
+        | _, _ => s := s.setFail (.diverge "sqrt enclosure could not be certified")
+  -- (d) staleness audit
+  if t.dumped then
+    s := s.bump "graph.dumps"
+    let jrs := junctionRects sc
+    for e in t.ve do
+      s := s.bump "graph.vis-edges"
+      if !(vertexOk sc s.orth e.o1 e.vn1 e.c1 e.p1 && vertexOk sc s.orth e.o2 e.vn2 e.c2 e.p2) then
+        s := s.setFail (.diverge s!"stale-graph: visibility edge ({e.o1},{e.vn1})-({e.o2},{e.vn2}) refers to a deleted object or an outdated position")
+      else if rects.any (fun r => segHitsOpenRect r (toP e.p1) (toP e.p2)) then
+        s := s.setFail (.diverge s!"stale-graph: visibility edge ({e.o1},{e.vn1})-({e.o2},{e.vn2}) ({showR e.p1.x},{showR e.p1.y})-({showR e.p2.x},{showR e.p2.y}) passes through a shape of the current scene")
+      else if !s.orth && jrs.any (fun (jid, r) => jid != e.o1 && jid != e.o2 && segHitsOpenRect r (toP e.p1) (toP e.p2)) then
+        s := s.setFail (.diverge s!"stale-graph: visibility edge ({e.o1},{e.vn1})-({e.o2},{e.vn2}) passes through a junction box of the current scene")
+    for e in t.ie do
+      s := s.bump "graph.invis-edges"
+      if !(vertexOk sc s.orth e.o1 e.vn1 e.c1 e.p1 && vertexOk sc s.orth e.o2 e.vn2 e.c2 e.p2) then
+        s := s.setFail (.diverge s!"stale-graph: invisibility edge ({e.o1},{e.vn1})-({e.o2},{e.vn2}) refers to a deleted object or an outdated position")
+      else if e.blocker > 0 then
+        match findObst sc e.blocker.toNat with
+        | some ob =>
+          -- the recorded blocker must at least touch the segment (expanded by 1e-6)
+          let box := if ob.isJ then junctionBox ob.geom else rectOfPoly ob.geom
+          match box with
+          | some r =>
+            if !ob.active || !segHitsOpenRect (r.shrink (-tol)) (toP e.p1) (toP e.p2) then
+              s := s.setFail (.diverge s!"stale-graph: invisibility edge ({e.o1},{e.vn1})-({e.o2},{e.vn2}) names blocker {e.blocker} which does not touch it in the current scene")
+          | none => pure ()
+        | none => s := s.setFail (.diverge s!"stale-graph: invisibility edge ({e.o1},{e.vn1})-({e.o2},{e.vn2}) names deleted blocker {e.blocker}")
+  -- remember routes
+  let last := t.rt.filterMap fun (cid, d) => (lookup t.rr cid).map fun r => (cid, d, r)
+  return { s with last := last, noopExpected := false }
+
+def stepLine (s : St) (l : Array String) : St :=
+  if s.fail.isSome && (match s.fail with | some (.specfail _) => true | _ => false) then s else
+  let key := l[0]?.getD ""
+  let rest := l.extract 1 l.size
+  match key with
+  | "cfg" =>
+    { s with orth := rest[0]?.getD "" == "orth", pen := (num? (rest[1]?.getD "0")).getD 0,
+             model := { init with useTxn := true } }
+  | "op" =>
+    match parseOp rest with
+    | none => s.setFail (.diverge s!"unparsable op line {rest}")
+    | some op =>
+      if !legal s.model op then s.setFail (.diverge s!"generator issued a call that is not legal in the model state: {rest}")
+      else
+        let s := (s.bump ("op." ++ opName op)).bump ("branch." ++ branchOf s.model op)
+        let s := if !s.model.useTxn then s.bump "op.in-immediate-mode" else s
+        let noop := match op with
+          | .processTransaction => s.model.queue.isEmpty
+          | _ => false
+        { s with model := step s.model op, noopExpected := noop, lastOp := opName op }
+  | "os" =>
+    match parsePts rest 3 with
+    | some g => { s with obsO := { id := nat! (rest[0]?.getD "0"), isJ := rest[1]?.getD "0" == "1",
+                                   active := rest[2]?.getD "0" == "1", geom := g.toList } :: s.obsO }
+    | none => s.setFail (.diverge "unparsable os line")
+  | "oc" =>
+    match parsePt rest 2, parsePt rest 5 with
+    | some a, some b =>
+      { s with obsC := { id := nat! (rest[0]?.getD "0"), src := if rest[1]?.getD "0" == "1" then some a else none,
+                         dst := if rest[4]?.getD "0" == "1" then some b else none } :: s.obsC }
+    | _, _ => s.setFail (.diverge "unparsable oc line")
+  | "oe" =>
+    let implO := sortBy Obst.id s.obsO
+    let implC := sortBy Conn.id s.obsC
+    let modO := sortBy Obst.id s.model.scene.obsts
+    let modC := sortBy Conn.id s.model.scene.conns
+    let s := { s with obsO := [], obsC := [] }
+    let s := s.bump "tie.scene-compared"
+    if implO != modO then
+      let bad := (implO.zip modO).find? fun (a, b) => a != b
+      let what := match bad with
+        | some (a, b) => s!"obstacle {a.id}: router active={a.active} geom={showPts a.geom.toArray} / model id={b.id} active={b.active} geom={showPts b.geom.toArray}"
+        | none => s!"router has {implO.length} obstacle objects, model {modO.length}"
+      s.setFail (.diverge s!"scene tie after {s.lastOp}: {what}")
+    else if implC != modC then s.setFail (.diverge s!"scene tie after {s.lastOp}: connector endpoints differ")
+    else s
+  | "txn" => { s with inTxn := true, txn := { dumped := rest[1]?.getD "0" == "1" } }
+  | "ff" => { s with txn := { s.txn with fresh := rest[0]?.getD "0" == "1" } }
+  | "rt" | "rr" | "fr" | "fd" =>
+    match parsePts rest 1 with
+    | some r =>
+      let e := (nat! (rest[0]?.getD "0"), r)
+      let t := s.txn
+      let t := if key == "rt" then { t with rt := t.rt ++ [e] } else if key == "rr" then { t with rr := t.rr ++ [e] }
+               else if key == "fr" then { t with fr := t.fr ++ [e] } else { t with fd := t.fd ++ [e] }
+      { s with txn := t }
+    | none => s.setFail (.diverge s!"unparsable {key} line (non-finite coordinate?)")
+  | "ve" =>
+    match parseEdge rest false with
+    | some e => { s with txn := { s.txn with ve := s.txn.ve.push e } }
+    | none => s.setFail (.diverge "unparsable ve line")
+  | "ie" =>
+    match parseEdge rest true with
+    | some e => { s with txn := { s.txn with ie := s.txn.ie.push e } }
+    | none => s.setFail (.diverge "unparsable ie line")
+  | "te" => checkTxn s
+  | _ => s
+
+def checkCase (c : Case) : CaseResult :=
+  let s := c.lines.foldl stepLine {}
+  let done := (c.get1 "done").isSome
+  let verdict := match s.fail with
+    | some v => v
+    | none => if done then .ok else .diverge "case stream incomplete"
+  { verdict := verdict,
+    nontrivial := s.checkedTxns ≥ 2 && s.bentRoutes ≥ 1,
+    stats := s.stats ++ [("routes.bent", s.bentRoutes), ("routes.rerouted", s.rerouted)] }
+
+def run (_args : List String) : IO UInt32 := runCases checkCase
 
 end Driver.C06
